@@ -545,7 +545,8 @@ Fixpoint targets_columns (e : env) (tables : list qtable) (targets : list node) 
 Definition qcatalog := list (string * qtable).
 
 Definition qc_get_table (e : env) (ctes : qcatalog) (rel : tname) : result qtable :=
-  match assoc ctes (tn_name rel) with
+  (* a schema-qualified name never denotes a CTE *)
+  match (if String.eqb (tn_schema rel) "" then assoc ctes (tn_name rel) else None) with
   | Some t => Ok t
   | None =>
       match cat_get_table (env_cat e) rel with
@@ -683,7 +684,7 @@ Definition typemap_lookup (c : catalog) (tables : list tname) (schema rel key : 
        end
   else None.
 
-Definition resolve_one (e : env) (tables : list tname) (aliases : list (string * tname)) (default_table : option tname)
+Definition resolve_one (e : env) (tables bare : list tname) (aliases : list (string * tname)) (default_table : option tname)
            (names : list (Z * string)) (ref : pref) : result (list param) :=
   let c := env_cat e in
   let num := ref_number ref in
@@ -709,8 +710,9 @@ Definition resolve_one (e : env) (tables : list tname) (aliases : list (string *
                   else match assoc aliases alias with
                        | Some orig => [orig]
                        | None =>
-                           (* the loop keeps the LAST table of that bare name *)
-                           match find_first (fun t => String.eqb (tn_name t) alias) (rev tables) with
+                           (* the loop keeps the LAST table of that bare name among the tables that are
+                              visible under their own name (range vars without alias) *)
+                           match find_first (fun t => String.eqb (tn_name t) alias) (rev bare) with
                            | Some t => [t]
                            | None => tables
                            end
@@ -810,10 +812,11 @@ Definition resolve_catalog_refs (e : env) (rvs : list node) (refs : list pref) (
   (* Go map: a later range var with the same alias overwrites *)
   let aliases := rev (flat_map (fun rv => if is_nil (kid "Alias" rv) then []
                                           else [(str_of "Aliasname" (kid "Alias" rv), table_of_rangevar rv)]) rvs') in
+  let bare := map table_of_rangevar (filter (fun rv => is_nil (kid "Alias" rv)) rvs') in
   (fix go (l : list pref) : result (list param) :=
      match l with
      | [] => Ok []
-     | r :: rest => do a <- resolve_one e tables aliases default_table names r; do b <- go rest; Ok (a ++ b)
+     | r :: rest => do a <- resolve_one e tables bare aliases default_table names r; do b <- go rest; Ok (a ++ b)
      end) refs.
 
 (** * expand.go *)
